@@ -68,7 +68,7 @@ def event_strategy():
     t_assign = st.tuples(st.sampled_from(ASSIGN), tbl).map(lambda t: ["assign", t[0][0], t[0][1], t[1], t[0][2]])
     t_mutate = st.tuples(st.sampled_from(MUTATE), tbl).map(lambda t: ["mutate", t[0][0], t[0][1], t[1]])
     t_pickle = st.tuples(st.sampled_from(["el+", "iso", "ion", "isoion", "D"]), tbl).map(lambda t: ["pickle", t[0], t[1]])
-    t_formula = st.tuples(st.sampled_from(FORMULAS), tbl).map(lambda t: ["formula", t[0], t[1]])
+    t_formula = st.tuples(st.sampled_from(FORMULAS + H.FORMULA_ROUTES), tbl).map(lambda t: ["formula", t[0], t[1]])
     any_tbl = st.sampled_from(["public", "T1", "T2"])
     t_lookup = st.tuples(st.sampled_from(LOOKUPS), any_tbl).map(lambda t: ["lookup", t[0][0], t[0][1], t[1]])
     return st.one_of(st.sampled_from(pub), st.sampled_from(pub), t_init, t_init, t_read, t_calc, t_assign, t_mutate,
@@ -204,7 +204,8 @@ def judge_all(history, res, canon):
                             % (tbl, ev[1], ev[2], o[1][0] if o[0] == "ok" else o, tbl, o[1][2] if o[0] == "ok" else None)))
         elif ev[0] == "formula":
             if o != ["ok", [tbl]]:
-                out.append(("c10:formula-table:%s" % ("fasta" if ":" in ev[1] else "grammar"),
+                out.append(("c10:formula-table:%s" % (ev[1][6:] if ev[1].startswith("route:") else
+                                                      "fasta" if ":" in ev[1] else "grammar"),
                             "formula(%r, table=%s) contains atoms of tables %r" % (ev[1], tbl, o)))
         elif ev[0] in ("create", "init", "assign", "mutate"):
             if o[0] != "ok":
@@ -348,7 +349,7 @@ def family_mutate(full):
                               ["read", "number_density", "el+", "T1"], ["create", "T2"]]))
     for r in ("el+", "iso", "ion", "isoion", "D"):
         out.append(fixup([["pickle", r, "T1"], ["pickle", r, "T2"], ["pickle", r, "public"]]))
-    for f in FORMULAS:
+    for f in FORMULAS + H.FORMULA_ROUTES:
         out.append(fixup([["formula", f, "T1"]]))
     for order in (["T1", "public", "T2"], ["public", "T1", "T2"], ["T2", "T1", "public"]):
         out.append(fixup([["lookup", how, key, t] for t in order for how, key in LOOKUPS]))
